@@ -249,10 +249,14 @@ func runProperty(o checkOpts) ([]*funcResult, *Engine, []string, error) {
 		dir = o.workDir
 	}
 	_ = os.RemoveAll(dir)
-	var skip map[string]string
-	if o.skipUnclaimed {
-		if ent := loadLedger(o.verif)[o.prop]; ent != nil {
+	var skip, unclaimedRef map[string]string
+	if ent := loadLedger(o.verif)[o.prop]; ent != nil {
+		if o.skipUnclaimed {
 			skip = ent.Unclaimed
+		} else if o.tier == "thorough" {
+			// thorough: obligations that did not discharge on the reference tree are tried again, but with the
+			// quick limit (they are not part of the claim; with the long limit they alone would take hours)
+			unclaimedRef = ent.Unclaimed
 		}
 	}
 	// first pass: the functions are discharged concurrently, with one shared limit on the queries in flight (each
@@ -273,6 +277,9 @@ func runProperty(o checkOpts) ([]*funcResult, *Engine, []string, error) {
 					// recorded as undecided on the reference tree: not part of the claim, not re-tried in the quick tier
 					ob.Result, ob.Solver = "skipped-unclaimed", "-"
 					continue
+				}
+				if _, un := unclaimedRef[ob.group()]; un && !ob.Auto && !ob.Smoke {
+					ob.shortLimit = true
 				}
 				obs = append(obs, ob)
 			}
